@@ -12,8 +12,6 @@ CONSTANTS NLay,         \* number of layers
 VARIABLES main, drop, shp, stage, pd
 vars == <<main, drop, shp, stage, pd>>
 
-MShape(s) == CASE s \in {"bb", "bn", "bs"} -> "both" [] s \in {"nb", "nn", "ns"} -> "nogroup" [] OTHER -> "section"
-DShape(s) == CASE s \in {"bb", "nb", "sb"} -> "both" [] s \in {"bn", "nn", "sn"} -> "nogroup" [] OTHER -> "section"
 Tree == [main |-> main, drop |-> drop, mshape |-> MShape(shp), dshape |-> DShape(shp), pd |-> pd]
 NDrops == LET RECURSIVE S(_) S(i) == IF i = 0 THEN 0 ELSE Cardinality(drop[i]) + S(i - 1) IN S(Len(drop))
 
